@@ -279,7 +279,8 @@ ADDENDA = {
     "C16": " Field values include equal-but-distinguishable pairs (True/1, float(default)/default, fresh equal tuples); "
            "alteration of existing objects is judged by identity of constituent namespaces and by the type of every "
            "field, not by ==. "
-           "Also every tree in which one class lists a plain, non-render mixin before or after its render base: class tables for every tree x owner subset x position; operator histories to depth 2 in quick, and in thorough to depth 3 for <= 3 classes (4-class trees: mixin first, depth 2).",
+           "Also every tree in which one class lists a plain, non-render mixin before or after its render base: class tables for every tree x owner subset x position; operator histories to depth 2 in quick, and in thorough to depth 3 for <= 3 classes (4-class trees: mixin first, depth 2). "
+           "The unknown-field menu of ns.update / RenderArgs.update(cls, **fields) / Args(**fields) includes non-field names that are attributes of the namespace class (as_dict, _FIELDS, update, get_fields, get_render_cls, __doc__), each required to raise UnknownArgsFieldError and change nothing.",
     "C17": " Also tall-narrow sources (columns < rows), off-grid pixel sizes at two cell sizes, the global cell ratio "
            "{0.25, 1.0, 2.0, ...}, canvases trimmed after their image was rendered again at another size, and pairs of "
            "content() iterators advanced in lock step. "
